@@ -248,6 +248,8 @@ def _dc_strategy(tier: str):
             # EdgeLock parts: the challenge's protocol version is not compared with the credential's (validate_against_dc), so the
             # device may send another one; the response still follows the credential
             "dac_ver": draw(st.sampled_from([None, None, [1, 0], [1, 1], [2, 0], [2, 1], [2, 2]])),
+            # the same key (and the same file) in two entries of the RoT table, as when one key fills all slots
+            "dup": draw(st.one_of(st.none(), st.none(), st.none(), st.tuples(st.integers(0, 3), st.integers(0, 3)))),
             "dar_path": draw(st.sampled_from(["create", "config"])),
             "dar_family_given": draw(st.booleans()), "dar_signer": draw(st.sampled_from(["key", "key", "sp"])), "neg": draw(st.sampled_from(["uuid", "beacon", "dc", "chal"])),
         }
@@ -294,6 +296,11 @@ def run_dc(case, o: Oracle) -> None:
     latest = _info(fam, "latest")
     rot_descs, dck_desc = list(case["rot"]), case["dck"]
     n, rot_id = len(rot_descs), int(case["rot_id"])
+    rot_form = list(case["rot_form"])
+    if case.get("dup") and n >= 2 and case["dup"][0] % n != case["dup"][1] % n:
+        rot_descs[case["dup"][1] % n] = rot_descs[case["dup"][0] % n]
+        rot_form[case["dup"][1] % n] = rot_form[case["dup"][0] % n]
+        o.label("rot_duplicate")
     pubs = [_pub(d) for d in rot_descs]
     dck_pub = _pub(dck_desc)
     kind = "ele" if info["ele"] else ("rsa" if kt.startswith("rsa") else "ecc")
@@ -348,7 +355,7 @@ def run_dc(case, o: Oracle) -> None:
               "cc_beacon": cb, "auth_beacon": case["ab"], "challenge": bytes(case["chal"]).hex(), "dar_path": case["dar_path"]})
 
     # ---- configuration as a user writes it
-    rot_files = [_key_file(d, f) for d, f in zip(rot_descs, case["rot_form"])]
+    rot_files = [_key_file(d, f) for d, f in zip(rot_descs, rot_form)]
     rotk_file = _key_file(rot_descs[rot_id], "priv.pem")
     dck_file = _key_file(dck_desc, case["dck_form"])
     dck_priv = _key_file(dck_desc, "priv.pem")
